@@ -44,6 +44,8 @@ def scenarios(rep, tier, seed):
             scn["id_offset"] = 1 + i % 5
         scns.append(scn)
     scns += S.extreme_unit_scenarios(random.Random(seed * 1000003 + 1515), 120 if thorough else 30, kind="semi", nq=2, nu=3)
+    scns += S.prefile_scenarios(random.Random(seed * 1000003 + 1516), 90 if thorough else 24, kind="semi", nq=2, nu=2)
+    scns += S.mixed_dtype_scenarios(random.Random(seed * 1000003 + 1517), 120 if thorough else 30, kind="semi", nq=2, nu=3)
     return scns
 
 
